@@ -9,6 +9,8 @@ use aldrin_core::ProtocolVersion;
 use futures_channel::mpsc;
 #[cfg(feature = "statistics")]
 use futures_channel::oneshot;
+#[cfg(all(feature = "verif-hooks", not(feature = "statistics")))]
+use futures_channel::oneshot;
 use futures_util::sink::SinkExt;
 
 /// Handle of an active broker.
@@ -228,6 +230,19 @@ impl BrokerHandle {
         let (send, recv) = oneshot::channel();
         self.send
             .send(ConnectionEvent::TakeStatistics(send))
+            .await
+            .map_err(|_| BrokerShutdown)?;
+        recv.await.map_err(|_| BrokerShutdown)
+    }
+
+    /// Verification hook: read-only snapshot of the broker's internal map sizes and a
+    /// cross-reference consistency walk, taken inside the broker task.
+    #[cfg(feature = "verif-hooks")]
+    #[doc(hidden)]
+    pub async fn verif_snapshot(&mut self) -> Result<crate::VerifSnapshot, BrokerShutdown> {
+        let (send, recv) = oneshot::channel();
+        self.send
+            .send(ConnectionEvent::VerifSnapshot(send))
             .await
             .map_err(|_| BrokerShutdown)?;
         recv.await.map_err(|_| BrokerShutdown)
